@@ -174,6 +174,8 @@ def gunzip (bs : Bytes) : Except String Bytes := do
   match bs with
   | 0x1f :: 0x8b :: 8 :: flg :: _ :: _ :: _ :: _ :: _ :: _ :: r =>
     let f := flg.toNat
+    -- RFC 1952: "must give an error indication if any reserved bit is non-zero" (flate2 does)
+    if f / 32 ≠ 0 then throw "reserved flag bits"
     let r ← (if f / 4 % 2 = 1 then
         match r with
         | a :: b :: r' => if a.toNat + 256 * b.toNat ≤ r'.length then pure (r'.drop (a.toNat + 256 * b.toNat)) else throw "eof"
@@ -181,7 +183,13 @@ def gunzip (bs : Bytes) : Except String Bytes := do
       else pure r : Except String Bytes)
     let r ← (if f / 8 % 2 = 1 then (match dropZ r with | some r => pure r | none => throw "eof") else pure r : Except String Bytes)
     let r ← (if f / 16 % 2 = 1 then (match dropZ r with | some r => pure r | none => throw "eof") else pure r : Except String Bytes)
-    let r ← (if f / 2 % 2 = 1 then (if 2 ≤ r.length then pure (r.drop 2) else throw "eof") else pure r : Except String Bytes)
+    -- FHCRC: the low 16 bits of the CRC-32 of the header read so far, checked (as flate2 does)
+    let r ← (if f / 2 % 2 = 1 then
+        (match r with
+         | a :: b :: r' =>
+           if a.toNat + 256 * b.toNat = (crc32 (bs.take (bs.length - r.length))).toNat % 65536 then pure r' else throw "header crc mismatch"
+         | _ => throw "eof")
+      else pure r : Except String Bytes)
     let (out, used) ← inflateRaw r
     let t := r.drop used
     if t.length < 8 then throw "eof in trailer"
